@@ -102,6 +102,12 @@ def vocabulary():
         g.switch(I("aa"), [(g.LV_IGNORE, g.decl("yy", L(7)))]),
         I("yy")])))), ["rq"])
     add("call-rq", P(g.call(I("rq"), [L(2)])), [])
+    # a later clause of a for header sees the variables of the earlier clauses (bound, not free), also when an
+    # outer variable of the same name exists
+    add("frozen-for-clauses", g.decl("r2", g.freeze(lam1(g.for_yield(
+        [g.cl_it(g.lv_id("yy"), g.lst([L(1), I("aa")])), g.cl_it(g.lv_id("jj"), g.lst([I("yy"), L(5)])), g.cl_decl(g.lv_id("kk2"), g.binop("+", I("yy"), I("jj")))],
+        I("kk2"))))), ["r2"])
+    add("call-r2", P(g.call(I("r2"), [L(3)])), [])
     # switch inside frozen code: each arm is a scope of its own; `literally e` is code in a pattern
     add("frozen-switch", g.decl("rw", g.freeze(lam1(g.switch(g.lst([I("aa"), I("yy")]), [
         (g.lv_tuple([g.lv_lit(0), g.lv_id("ww")]), g.binop("+", I("ww"), I("yy"))),
